@@ -58,13 +58,17 @@ def pops : Nat → Strm → Option (List Inst × Bool)
 /-- `fix_rrul_dflts` (in `__make_evrrul`): under a SHIFT the parts a YEARLY / MONTHLY rule leaves to DTSTART are made
 explicit when the stream is set up, because later refills are seeded with shifted dates -/
 def fixDflts (r : Rule) (p : Inst) : Rule :=
+  -- a single rule without exceptions: `multi` is false, only a SHIFT makes the defaults explicit
   if r.shift = 0 then r
+  else if p.m = 0 ∨ p.m > 12 ∨ p.d = 0 ∨ p.d > 31 then r
+  else if r.freq = 1 ∧ !r.wk.isEmpty ∧ r.dow.isEmpty ∧ r.doy.isEmpty ∧ r.dom.isEmpty ∧ r.mon.isEmpty ∧ r.scale = 0 then
+    -- BYWEEKNO on its own goes with DTSTART's weekday
+    { r with dow := [(ymdGetWday p.y p.m p.d : Int)] }
   else if !r.dow.isEmpty ∨ !r.doy.isEmpty ∨ !r.easter.isEmpty ∨ !r.dom.isEmpty ∨ !r.wk.isEmpty then r
   else
-    let day := fun (r : Rule) => if p.d ≠ 0 ∧ p.d ≤ 31 then { r with dom := [(p.d : Int)] } else r
     match r.freq with
-    | 1 => day (if r.mon.isEmpty ∧ p.m ≠ 0 ∧ p.m ≤ 12 then { r with mon := [p.m] } else r)
-    | 2 => day r
+    | 1 => { (if r.mon.isEmpty then { r with mon := [p.m] } else r) with dom := [(p.d : Int)] }
+    | 2 => { r with dom := [(p.d : Int)] }
     | _ => r
 
 def mkStrm (r : Rule) (dtstart : Inst) : Strm := { rule := fixDflts r dtstart, from_ := some dtstart }
